@@ -29,6 +29,7 @@ func (s *Sim) oracleMore(op Op, evs []SIEvent, preds []PredCall) {
 	s.oracleC13(op, evs)
 	s.oracleC07(op, evs)
 	s.oracleC17(op, evs)
+	s.oracleC19(op)
 }
 
 func (s *Sim) checkDrainedMore() {}
